@@ -137,7 +137,32 @@ impl<'t, 'a> ArrGen<'t, 'a> {
         }
         let xn = self.vars[x].clone();
         let yn = self.vars[y].clone();
-        match self.t.weighted(&[22, 14, 10, 10, 8, 8, 8, 6, 4, 4, 3, 3]) {
+        match self.t.weighted(&[22, 14, 10, 10, 8, 8, 8, 6, 4, 4, 3, 3, 5, 5]) {
+            12 => {
+                // pass the first variable to the function whose parameter shadows it
+                self.labels.insert("arg_copy_shadowing_parameter");
+                self.overwritten(y);
+                if y != 0 {
+                    self.live_copies.push((0, y));
+                }
+                self.copy_then_mutate = true;
+                let x0 = self.vars[0].clone();
+                (vec![put(pe(Primary::Call(Name::Simple("shadowmutator".into()), vec![var(&x0)])), &yn)], true)
+            }
+            13 => {
+                // the position comes from a queue (a subscript with a side effect: evaluated once per statement)
+                self.labels.insert("subscript_with_side_effect");
+                self.mutated(x);
+                let slots = Name::Simple("slots".into());
+                let idx = Primary::Pop(Box::new(pvar(&slots)));
+                let st = match self.t.pick(3) {
+                    0 => Stmt::Push { array: sub(pvar(&xn), idx), value: Some(PushRhs::List(vec![num(7.0), num(8.0)])) },
+                    1 => Stmt::Push { array: sub(pvar(&xn), idx), value: Some(PushRhs::List(vec![num(7.0), strlit("e"), num(9.0)])) },
+                    // (no compound assignment here: whether its subscript is evaluated once or twice is not specified)
+                    _ => Stmt::Assign { dest: Lhs::Subscript(Box::new(pvar(&xn)), Box::new(idx)), value: vec![num(5.0)], op: None },
+                };
+                (vec![st, say(var(&slots))], true)
+            }
             0 => {
                 // element write
                 let (p, depth) = self.target(x);
@@ -374,6 +399,23 @@ impl<'t, 'a> ArrGen<'t, 'a> {
                 params: vec![rp.clone()],
                 body: vec![say(bin(BinOp::Plus, strlit("r:"), var(&rp))), Stmt::Return { value: var(&rp) }],
             },
+            // a function whose parameter has the very name of the first variable (it shadows it) and which changes the
+            // parameter through the pronoun: the caller's variable must stay as it is
+            Stmt::Function {
+                name: Name::Simple("shadowmutator".into()),
+                params: vec![self.vars[0].clone()],
+                body: vec![
+                    say(var(&self.vars[0].clone())),
+                    Stmt::Push { array: Primary::Ident(Ident::Pronoun), value: Some(PushRhs::List(vec![num(77.0)])) },
+                    say(var(&self.vars[0].clone())),
+                    Stmt::Assign { dest: Lhs::Subscript(Box::new(Primary::Ident(Ident::Pronoun)), Box::new(Primary::Lit(Lit::Num(1.0)))), value: vec![strlit("via it")], op: None },
+                    say(var(&self.vars[0].clone())),
+                    Stmt::Pop { array: Primary::Ident(Ident::Pronoun), dest: None },
+                    Stmt::Return { value: var(&self.vars[0].clone()) },
+                ],
+            },
+            // positions handed out one at a time
+            Stmt::Push { array: pvar(&Name::Simple("slots".into())), value: Some(PushRhs::List([0.0, 1.0, 2.0, 0.0, 1.0, 3.0, 2.0, 0.0, 1.0, 2.0, 1.0, 0.0].iter().map(|n| num(*n)).collect())) },
         ];
         for st in prelude {
             let _ = m.exec_top(&st);
